@@ -30,9 +30,10 @@ def add_corpus(chk, res, name, bound):
 def run(tier, seed):
     chk = Check("C01", tier, seed, "other")
     try:
-        from ..kernels import c01_lowering, c01_shapes
-        for k in c01_lowering.KERNELS + c01_shapes.KERNELS:
+        from ..kernels import c01_lowering, c01_shapes, c08_align
+        for k in c01_lowering.KERNELS + c01_shapes.KERNELS + c08_align.KERNELS:
             chk.add_kernel(run_kernel(k, tier))
+        chk.add_lemmas(tier)
     except ImportError:
         pass
     res = _corpus_run.run_corpus(seed, tier)
